@@ -10,7 +10,7 @@ HOOKS = {
 ENGINES = [
     {"name": "kani", "path": "bin/check", "serves_properties": ["C04", "C06", "C07", "C10", "C11", "C12", "C13", "C14", "C15", "C16", "C17", "C18"],
      "kind_free_text": "Kani 0.68 / CBMC 6.11 harness crate (kani/src) built against /repo's crates on every run; bounded stand-in and counterexample generator; replay binary kh-replay re-runs a counterexample on the stable toolchain"},
-    {"name": "verus", "path": "bin/check", "serves_properties": ["C01", "C02", "C03", "C04", "C05"],
+    {"name": "verus", "path": "bin/check", "serves_properties": ["C01", "C02", "C03", "C04", "C05", "C08", "C13", "C14", "C15"],
      "kind_free_text": "contract templates (specs/*.vrs) whose holes are filled with the real items/function bodies of /repo by the vx extractor on every run; Verus 0.2026.09.13 (Z3) discharges every obligation"},
 ]
 NOTES = ("Technique family: contract-based deductive verification of the real code. exit 2 = undecided (lost anchor, unsupported construct, "
@@ -69,9 +69,24 @@ CLAIMS["C05"] = {
 KANI_NOTE = ("Bounded: CBMC explores every execution of the real compiled crates (including rand 0.9) within the stated collection-size bound, for all "
              "element values and all random streams (each word handed to rand is an unconstrained symbolic value; after the stated number of symbolic "
              "words the stream continues with all-ones). Not a proof for larger sizes. Uniformity of rand's words / its sampling algorithms is assumed.")
+CLAIMS["C08"] = {
+    "category": "proof", "engine": "verus",
+    "technique": "Verus: the real Lexicase::select body (extracted, instantiated at Vec<EcIndividual<G, TestResults<Res>>>) proved against a declarative filtering spec with two nested loop invariants",
+    "text": "For every population, every result matrix (ties, duplicates, ragged rows), every configured case count and every stream state: with pi the shuffled case order, the real "
+            "select() returns an individual pop[i] with i in lex_run(pop, pi) — the candidates left after filtering case by case in the order pi, keeping at each case exactly those with "
+            "a best result on it under the result type's order (so Error<T>'s reversed order makes lower errors better), stopping when one candidate is left — or EmptyPopulation for an "
+            "empty population, or MissingTestCase{configured count, case} when a considered case has no result for a remaining candidate. Termination and absence of panics are "
+            "Verus' own obligations on the extracted body.",
+    "note": "Assumed, not decided: that shuffle draws every permutation with equal probability and that the final shuffle + first is a uniform pick among the survivors — i.e. the probability "
+            "sentence of C08 rests on rand's contract; what is proved is that the only randomness is those two shuffles and that everything between them is the deterministic filter. "
+            "Trusted: vx_shuffle stand-in (permutation, function of the stream state), Option::copied, vstd's Vec / slice / for-loop models. Precondition: the result type's order is a "
+            "lawful total order. 'That very element' (pointer identity) is Kani's C06 harnesses; here the result is value-equal to population[i]. The Pareto-domination consequence is argued "
+            "in DESIGN.md, not machine-checked.",
+    "design_ref": "DESIGN.md §6 C08, §12",
+}
 KANI_TECH = "bounded stand-in: Kani/CBMC harnesses on the real compiled crates, symbolic random stream, cover! witnesses for 'can occur' clauses, counterexamples replayed on the stable toolchain"
-def kclaim(text, note=KANI_NOTE, ref="DESIGN.md §5, §6", tech=KANI_TECH, cat="model_checking"):
-    return {"category": cat, "engine": "kani", "technique": tech, "text": text + " Labelled bounded; not counted as proved.", "note": note, "design_ref": ref}
+def kclaim(text, note=KANI_NOTE, ref="DESIGN.md §5, §6, §12", tech=KANI_TECH, cat="model_checking"):
+    return {"category": cat, "engine": "kani", "technique": tech, "text": text + " Kani harnesses that are not loop-free/full-domain are labelled bounded and not counted as proved.", "note": note, "design_ref": ref}
 
 CLAIMS["C10"] = kclaim(
     "For genomes up to length 3 (quick) / 5 (thorough), for all gene values and all random streams: TwoPointXo and UniformXo on Vec<T> (array and tuple forms) and on "
@@ -108,7 +123,9 @@ CLAIMS["C12"] = kclaim(
     note=KANI_NOTE + " Full-domain in the random word; f64 probabilities come from {0,.25,.5,.875,1} (a symbolic f64 makes CBMC bit-blast rand's p*2^64). The expected-size "
          "identity del = add/(1+add) is arithmetic over these characterisations and is not machine-checked.")
 CLAIMS["C13"] = kclaim(
-    "Complete (loop-free, all u32): WeightedPair::new and with_item_and_weight chaining return WeightSumOverflow(a,b) exactly when the total does not fit in 32 bits — also when "
+    "Verus (generic members, all u32): the real WeightedPair::new, Weighted::new, weight() and the two non-Result with_weighted_item impls reject exactly the totals that do not "
+    "fit in 32 bits (WeightSumOverflow(a,b)), expose the exact sum, and build the coin a/(a+b) (absent exactly for total 0); a lemma spells out the two ratios of a nested chain. "
+    "Kani, complete (loop-free, all u32): WeightedPair::new and with_item_and_weight chaining return WeightSumOverflow(a,b) exactly when the total does not fit in 32 bits — also when "
     "the overflow happened earlier in a Result chain — and otherwise expose the exact sum. For all random words and representative weights: a pair delegates to exactly one member, "
     "member a exactly on the words below wa/(wa+wb)*2^64 (checked against exact integer arithmetic up to f64 rounding), zero-weight members are never used, all-zero gives ZeroWeight; "
     "left- and right-nested triples decide with outer coin (sum of the nested pair)/total and inner coin w_i/(pair sum), so member i is used on a word set of measure w_i/sum. "
@@ -116,14 +133,20 @@ CLAIMS["C13"] = kclaim(
     note=KANI_NOTE + " Proportionality of DynWeighted is rand's choose_weighted contract (assumed). Weights for the threshold harnesses come from "
          "{0,1,2,3,1000,2^31,u32::MAX-1,u32::MAX}.")
 CLAIMS["C14"] = kclaim(
-    "Probe operators log (id, input seen, word drawn) and fail on command. For all inputs, all random words and every failure position: Then feeds the first result to the second, "
+    "Verus (arbitrary parts, hence any nesting depth): every operator is specified as a function op(input, stream state) -> (result, stream state); the real apply() bodies of Then, "
+    "And, Map over a pair, Identity, Constant, Mutate, Recombine and the by-reference Mutator / Recombinator impls are proved equal to compositional spec functions written from the "
+    "property (first result fed to the second; same input to both; elements in order; the first failure stops the pipeline with the stream where the failing part left it; the error "
+    "identifies part / element index). Kani: probe operators log (id, input seen, word drawn) and fail on command. For all inputs, all random words and every failure position: Then feeds the first result to the second, "
     "And gives both the same input, Map maps pair/array/Vec elements in order, RepeatWith applies N times to copies — each part draws the next word of the stream, the first failure "
     "stops the pipeline (log length and stream position equal the number of parts run), the error identifies the part/element (observed through Display and Error::source, the "
     "error types being private), Identity/Constant/Mutate/Recombine/GenomeScorer (by value and by reference) add nothing. A composition nested two deep in every position follows "
     "the left-to-right schedule.",
     note=KANI_NOTE + " 'Nested to any depth' is argued from parametricity of each combinator in its parts; depth 2 is what is machine-checked. Vec length <= 3, N in {2,3}.")
 CLAIMS["C15"] = kclaim(
-    "Complete for i64 payloads (loop-free, all values): the compiled cmp / partial_cmp / == / < <= > >= of Score (derived), Error (hand-written reverse), TestResult (None exactly "
+    "Verus (generic payload T): the real hand-written and derived (taken from the macro expansion) eq / cmp / partial_cmp bodies of Score, Error, TestResult, TestResults and "
+    "EcIndividual are proved against spec functions over T's own order: scores ascending, errors reversed, TestResult None exactly across kinds, collections and individuals exactly "
+    "as their totals / test results; lemmas: lawfulness (reflexive, antisymmetric, transitive, partial_cmp == Some(cmp)) is inherited from T, and Error orders opposite to Score. "
+    "Kani, complete for i64 payloads (loop-free, all values): the compiled cmp / partial_cmp / == / < <= > >= of Score (derived), Error (hand-written reverse), TestResult (None exactly "
     "across kinds), TestResults and EcIndividual (exactly as their totals / test results) — ascending for scores, descending for errors, operators mutually consistent. "
     "IndividualGenerator::sample and GenomeScorer::apply carry exactly the genome produced and the scorer's answer for that genome. TestResults::from / from_iter: results kept in "
     "order, total == sum (0, 1 results quick; 3, 5 thorough).",
@@ -149,10 +172,18 @@ CLAIMS["C18"] = kclaim(
 # checks that exist but are not yet validated on the unchanged tree are not claimed
 PENDING = {"C11", "C12", "C18", "C19"}
 NOT_APPLICABLE = {
-    "C08": "Kani cannot carry Lexicase::select beyond ONE considered case (out of memory at two), which decides nothing about filtering by randomly ORDERED cases; the Verus proof sketched in DESIGN.md §6 (loop invariants over the candidate set, shuffle as an assumed permutation contract) has not been completed. What is checked about lexicase (membership, errors, single-case filtering, tie reachability) is claimed under C06 only (DESIGN.md §13).",
+    "C08_old": "Kani cannot carry Lexicase::select beyond ONE considered case (out of memory at two), which decides nothing about filtering by randomly ORDERED cases; the Verus proof sketched in DESIGN.md §6 (loop invariants over the candidate set, shuffle as an assumed permutation contract) has not been completed. What is checked about lexicase (membership, errors, single-case filtering, tie reachability) is claimed under C06 only (DESIGN.md §13).",
     "C11": "check being validated in this session (Kani harnesses exist: kani/src/c11.rs)",
     "C12": "check being validated in this session (Kani harnesses exist: kani/src/c11.rs, c18.rs)",
     "C18": "check being validated in this session (Kani harnesses exist: kani/src/c18.rs)",
     "C19": "check being validated in this session (compile-time snippets + Kani harnesses on the real builder exist: snippets/c19, kani/src/c19.rs)",
     "C09": "generation step: rayon worker threads and the thread-local OS-seeded rand::rng() inside par_next/serial_next are outside both installed verifiers (Kani: no threads/getrandom; Verus: no model); the remaining repository code is one collect::<Result<_,_>>() expression whose all-or-nothing behaviour is std's contract (DESIGN.md §7)",
 }
+
+VK_TECH = "Verus contracts on the mechanically extracted real bodies (generic, unbounded) + Kani/CBMC harnesses on the compiled crates (complete where loop-free and full-domain, otherwise bounded stand-ins)"
+for _p in ("C13", "C14", "C15"):
+    CLAIMS[_p]["technique"] = VK_TECH
+    CLAIMS[_p]["engine"] = "verus"
+for _p in ("C01", "C02", "C03"):
+    CLAIMS[_p]["technique"] += "; bounded Kani pairing harnesses on a lean state as fallback / counterexample generator (DESIGN §12.3)"
+    CLAIMS[_p]["note"] += " The Kani pairing harnesses (kani/src/c01.rs) are bounded (depths, representative operands for * / % pow) and listed under `bounded`, never counted as discharged."
